@@ -53,6 +53,13 @@ struct KeyStore {
         if (rc < 0) fprintf(stderr, "[mxh] matrixSslLoadKeys(%s,%s,%s) = %d\n", cert ? cert : "-", key ? key : "-", ca ? ca : "-", rc);
         return rc;
     }
+    // session-ticket keys for servers (RFC 5077 tickets and TLS 1.3 NewSessionTicket are only issued when these are loaded)
+    static int load_ticket_keys(sslKeys_t *k, uint8_t variant = 0) {
+        unsigned char name[16], sym[32], mac[32];
+        for (int i = 0; i < 16; i++) name[i] = (unsigned char) (0xA0 + i + variant);
+        for (int i = 0; i < 32; i++) { sym[i] = (unsigned char) (i * 7 + 1 + variant); mac[i] = (unsigned char) (i * 11 + 3 + variant); }
+        return matrixSslLoadSessionTicketKeys(k, name, sym, 32, mac, 32);
+    }
     static const unsigned char *psk_key() { static const unsigned char k[16] = { 1, 2, 3, 4, 5, 6, 7, 8, 9, 10, 11, 12, 13, 14, 15, 16 }; return k; }
     static const unsigned char *psk_id() { static const unsigned char i[8] = { 'v', 'e', 'r', 'i', 'f', 'p', 's', 'k' }; return i; }
     // A freshly loaded key set (own ephemeral-key cache, ticket keys...). Caller frees with matrixSslDeleteKeys.
@@ -63,6 +70,7 @@ struct KeyStore {
         else if (server || with_identity) { std::string n = server ? sc[auth] : cc[auth]; rc = load(&k, (n + ".pem").c_str(), (n + ".key").c_str(), ca[auth]); }
         else rc = load(&k, NULL, NULL, ca[auth]);
         if (rc < 0) { if (k) matrixSslDeleteKeys(k); return nullptr; }
+        if (server && load_ticket_keys(k) < 0) { matrixSslDeleteKeys(k); return nullptr; }
         return k;
     }
     void init() {
@@ -84,6 +92,7 @@ struct KeyStore {
             rc |= matrixSslLoadPsk(cli[AUTH_PSK], psk_key(), 16, psk_id(), 8);
             cli_noid[AUTH_PSK] = cli[AUTH_PSK];
         }
+        for (int i = 0; i < 4; i++) if (srv[i]) rc |= load_ticket_keys(srv[i]);
         if (rc < 0) { fprintf(stderr, "[mxh] key store initialisation failed\n"); abort(); }
         ok = true;
     }
